@@ -26,6 +26,15 @@ IntBases == {"u8","u16","u32","u64","u128","i8","i16","i32","i64","i128"}
 (* error instead of a silent overwrite                                                        *)
 CHECKDUP == TRUE
 
+(* named deviation (C13/C14): TRUE = the repaired behaviour, names that stand for the same Rust      *)
+(* identifier inside one namespace (fields, cases, slots, parameters, methods and the generated     *)
+(* accessors, extern values, the types of a module modulo `r#`) are an error                        *)
+CHECKNAMES == TRUE
+
+(* named deviations (C13): TRUE = the repaired behaviour                                            *)
+CHECKDERIVE == TRUE      \* a copyable / cloneable type whose by-value field (of an emitted type) is not, is an error
+CHECKEMPTYENUM == TRUE   \* an enum without cases is an error (`repr(int)` needs one)
+
 ResNone == [k |-> "none"]
 NoVftRes == [has |-> FALSE, funcs |-> <<>>, baseField |-> "", ty |-> TNone]
 
